@@ -3,7 +3,8 @@ import Driver.Util
 
 /-! engine `sig`: trace acceptor for the projected traces of the `sched` harness with signals (C20).
 
-    init <if|while> <f> <N> <batch 0|1> <clock0>    start a new trace                          -> ok
+    init <if|while> <f> <N> <batch 0|1> <clock0> <blind|guarded>     start a new trace; wait construct and form
+                                   of the worker's first state write are probed by behaviour          -> ok
     st <tc> <R> <P> <X> <ts|->     harness state before a step: threadcount, runnable threads, parked-
                                    unsignalled threads, threads blocked on something else, t[i].state
                                    digits (0 NEW 1 RCMD 2 READING 3 DONE 4 FAILED 5 CANCELED)  -> ok | reject ..
@@ -88,7 +89,7 @@ def enabledNames (s : St) : List String :=
   (if sEnabled s then ["Z"] else [])
 
 def showW : WP → String
-  | .idle => "idle" | .started => "started" | .rcmdL => "rcmdL" | .ready => "ready" | .connecting => "connecting"
+  | .idle => "idle" | .started => "started" | .rcmdL => "rcmdL" | .skipL => "skipL" | .ready => "ready" | .connecting => "connecting"
   | .connOk => "connOk" | .connFail => "connFail" | .updT => "updT" | .updL => "updL" | .reading => "reading" | .closing => "closing"
   | .resL => "resL" | .flushed => "flushed" | .tearing => "tearing" | .torn => "torn" | .locked => "locked"
   | .signaled => "signaled" | .done => "done"
@@ -173,11 +174,11 @@ def checkObs (s : St) : List String → Option String
 
 def stepLine (a : Acc) (line : String) : Acc × String :=
   match Driver.words line with
-  | ["init", v, f, n, b, t0] =>
+  | ["init", v, f, n, b, t0, g] =>
     match f.toNat?, n.toNat?, t0.toNat? with
     | some f, some n, some t0 =>
       let v := if v = "if" then Variant.ifWait else Variant.whileWait
-      ({ st := some (init v f n (b = "1") t0), dead := false }, "ok")
+      ({ st := some (init v (g = "guarded") f n (b = "1") t0), dead := false }, "ok")
     | _, _, _ => (a, "bad-line")
   | "st" :: rest =>
     if a.dead then (a, "skip") else
